@@ -315,7 +315,13 @@ def conclude(prop, args, meta, shards, t0, replay):
             timeouts += 1
 
     if replay:
-        bad = [v for v in viols]
+        # only the witness's own mechanism counts (the replayed case may also contain
+        # known findings or, on a mutant, other keys)
+        bad = [v for v in viols if v["key"] == replay.get("key")] or \
+              [v for v in viols if replay.get("key") is None]
+        other = sorted({v["key"] for v in viols} - {replay.get("key")})
+        if other:
+            print("replay: other keys seen in the replayed case (not judged): %s" % ", ".join(other[:6]))
         for v in bad:
             print("VIOLATION property=%s replay=%s key=%s" % (prop, args.replay, v["key"]))
             print("  " + str(v.get("msg", ""))[:600])
